@@ -101,28 +101,22 @@ def r1(ctx, F, hub):
                       % (sorted(labs), '' if in_graph else '; in a body no call edge reaches, e.g. a Drop impl'), term_loc(body, rb_))
     if n_rm < 3:
         ctx.missing('C03.R1', 'serve.rs: remove/rename sites (found %d)' % n_rm)
-    # lockdir at every call site is root/.copia
-    for cb2, bb2, c in hub.cg.call_sites(lambda c: c == LOCK, within=hub.graph):
-        dos = hub.deep_origins(cb2, cb2.blocks[bb2]['term']['args'][0])
-        ok = False
-        for bp, o in dos:
-            if o.kind == 'param':
-                # handler parameter: check serve's argument
-                ok = True
-                hb = F.body(bp)
-                for sb, sbb, _ in hub.cg.call_sites(lambda c: c == bp, within=hub.graph):
-                    st = sb.blocks[sbb]['term']
-                    so = flow_of(sb).origins(st['args'][o.key - 1])
-                    for x in so:
-                        if not (x.kind == 'call' and x.key == 'std::path::Path::join'):
-                            ok = False
-                            continue
-                        a0 = call_arg_origins(flow_of(sb), x.bb, 0)
-                        a1 = call_arg_origins(flow_of(sb), x.bb, 1)
-                        if not (all(y.kind == 'param' and y.key == 1 for y in a0) and all(y.kind == 'const' and y.key == '.copia' for y in a1)):
-                            ok = False
-        ctx.check(ok, 'C03.R1', '%s:lockdir' % cb2.path, 'lockdir == root.join(".copia") (same lock for every server of this root)',
-                  'a commit region locks something other than <root>/.copia/commit.lock', term_loc(cb2, bb2))
+    # the lock file is one fixed name under the served root - the same for every server of this root, whatever the request
+    # (labels: derived from the root only; a request-dependent part would give every path / spelling a lock of its own)
+    lb_ = F.body(LOCK)
+    lfl_ = flow_of(lb_)
+    n_open = 0
+    for ob, ot in lfl_.calls(lambda c: c.endswith('OpenOptions::open')):
+        n_open += 1
+        labs = hub.label_operand(lb_, ot['args'][1])
+        if OTHER in labs and TAINT not in labs and SAFE not in labs:
+            ctx.undecided('C03.R1', 'with_commit_lock: where the path of the lock file comes from is not followed (labels %s)' % sorted(labs))
+            continue
+        ctx.check(labs == {ROOT}, 'C03.R1', 'with_commit_lock:lock-file-under-root', 'the lock file is a fixed name under the served root (same lock for every server of this root)',
+                  'a commit region locks something other than one fixed file under <root>/.copia (labels %s): requests that reach one file through different '
+                  'spellings / paths do not exclude each other' % sorted(labs), term_loc(lb_, ob))
+    if n_open == 0:
+        ctx.undecided('C03.R1', 'with_commit_lock: the lock file is not opened in the lock function itself')
     # the locked File is not dropped / unlocked before the closure returns
     early = []
     if file_local is not None:
@@ -131,9 +125,25 @@ def r1(ctx, F, hub):
         for l, ds in fl.defs.items():
             if b.local_ty(l) == 'std::fs::File' and b.local_name(l):
                 lf = l
+        # who holds the locked file: the local itself, and whatever it is moved into (a guard struct, `let _held = ..`)
+        holders, moved_at = {lf}, {}
+        changed_ = True
+        while changed_:
+            changed_ = False
+            for bi in cfg.reachable():
+                for st_ in b.blocks[bi]['stmts']:
+                    ops_ = st_['rv'].get('ops', [])
+                    for o_ in ops_:
+                        if o_['k'] == 'move' and not o_['p']['proj'] and o_['p']['l'] in holders and not st_['dst']['proj']:
+                            moved_at.setdefault(o_['p']['l'], set()).add(bi)
+                            if st_['dst']['l'] not in holders:
+                                holders.add(st_['dst']['l'])
+                                changed_ = True
         for bi in cfg.reachable():
             t = b.blocks[bi]['term']
-            is_drop = t['k'] == 'drop' and t['p']['l'] == lf and not t['p']['proj']
+            is_drop = t['k'] == 'drop' and t['p']['l'] in holders and not t['p']['proj']
+            if is_drop and any(cfg.dominates(mb_, bi) for mb_ in moved_at.get(t['p']['l'], ())):
+                is_drop = False        # dropping a local whose value was moved out before: nothing is released
             is_unlock = t['k'] == 'call' and (callee(t) or '').endswith('::unlock')
             if (is_drop or is_unlock) and cfg.can_reach(bi, cb):
                 early.append(bi)
